@@ -294,6 +294,9 @@ func checkC11(c *Ctx) *report.Result {
 	r.Extra["sites"] = len(list)
 	// '< len(slice)' proofs are valid only if the slice header is never replaced at run time
 	for _, k := range it.LenCells() {
+		if ref := it.LenCellObject(k); ref == nil || !it.LenProofUsed[ref] {
+			continue
+		}
 		at, stored := storedCells[k]
 		where := ""
 		if stored {
